@@ -331,6 +331,8 @@ class C20Gen:
             ev.append({"op": "parse", "path": "sim://in." + cfg["fmt"], "tag": "A"})
             a = "e1.0"
         ev.append({"op": "fs_config", "chunk_law": cfg["chunk_law"], "seed": 5})
+        if cfg.get("no_top") and cfg["copy"] == "clone":
+            ev.append({"op": "set_top", "on": a, "x": None})    # a cell library: a netlist without a top instance
         if cfg["copy"] == "clone":
             ev.append({"op": "clone", "on": a, "tag": "B"})
         elif cfg["source"] == "example" and cfg["copy"] == "reparse":
@@ -397,6 +399,7 @@ class C20(Prop):
             cfg["lsb"] = max(0, cfg["lsb"])
             cfg["connect_rate"] = r.choice([0.3, 0.6])
             cfg["copy"] = r.choice(["clone", "roundtrip"])
+            cfg["no_top"] = cfg["copy"] == "clone" and r.random() < 0.15
             cfg["twin_defs"] = r.random() < 0.4
             if cfg["twin_defs"]:
                 cfg["n_libs"] = max(2, cfg["n_libs"])
